@@ -1468,9 +1468,15 @@ func (f *Frame) backEdge(li *LoopInfo, predIdx int, st *State) {
 			}
 			t, err := ev.evalBool(c.Expr)
 			if err != nil {
+				if strings.Contains(err.Error(), "unresolved identifier") {
+					// a body-local variable that is not defined on this back edge (e.g. an early `continue`)
+					g.atReturnSkipped["step:"+c.Text]++
+					continue
+				}
 				g.specError(f.contract, c, err)
 				continue
 			}
+			g.atReturnUsed["step:"+c.Text]++
 			g.oblige(st, "step", token.NoPos, fmt.Sprintf("loop %d: %s", li.Ordinal, c.Text), t)
 		}
 	}
